@@ -1,4 +1,4 @@
-(* C08 (highp, binary32): every polynomial blend closure generated from src/pipeline/highp.rs, evaluated in binary32 on finite
+(* C08 (highp, binary32): every polynomial / min-max blend closure (17 of the 29 modes) generated from src/pipeline/highp.rs, evaluated in binary32 on finite
    inputs in [0, 1], is finite and within 2^-19 of the exact polynomial of its source text -- less than 1/2000 of an 8-bit level,
    so the stored byte can differ from the rounded exact value only when 255 x exact lies within 1/2000 of a rounding boundary. *)
 From Coq Require Import Reals.
@@ -18,7 +18,11 @@ Theorem C08_highp_polynomial_modes_close :
   close highp_modulate P_modulate /\
   close highp_screen P_screen /\
   close highp_multiply P_multiply /\
-  close highp_exclusion P_exclusion.
+  close highp_exclusion P_exclusion /\
+  close highp_plus P_plus /\
+  close highp_darken P_darken /\
+  close highp_lighten P_lighten /\
+  close highp_difference P_difference.
 Proof. exact highp_polynomial_modes_close. Qed.
 
 (* what `close` says, spelled out for SourceOver *)
